@@ -163,7 +163,8 @@ func (l *payloadLogger) Debug(f string, v ...any) {
 
 var pluginSources = []string{"docker#v5.9.0", "docker", "docker-compose#v4.16.0", "my-org/my-plugin#v1.0.0", "my-org/thing", "github.com/buildkite-plugins/docker-buildkite-plugin#v5.9.0",
 	"github.com/my-org/my-plugin-buildkite-plugin#v1.0.0", "https://github.com/my-org/my-plugin.git#main", "ssh://git@github.com/my-org/repo#v2", "git@github.com:my-org/repo.git#v2",
-	"./.buildkite/plugins/local", "/opt/plugins/abs", "file:///srv/plugin#x", "artifacts#v1.9.0", "ecr#v2.7.0", "a/b/c#d"}
+	"./.buildkite/plugins/local", "/opt/plugins/abs", "file:///srv/plugin#x", "artifacts#v1.9.0", "ecr#v2.7.0", "a/b/c#d",
+	"docker#feature/cache-mounts", "my-org/thing#release/2.x", "github.com/buildkite-plugins/docker-buildkite-plugin#feature/cache-mounts", "cache#v1.0.0-rc.1", "monorepo-diff#refs/tags/v1"}
 
 type signWorld struct {
 	c        *engine.Ctx
